@@ -335,6 +335,9 @@ func RandXMPStyle(r *core.Rng, exotic bool) XMPStyle {
 	case 3:
 		st.Leading = "<?xml version=\"1.0\" encoding=\"UTF-8\"?>\n<!-- c -->\n< x : <x:xmpmet <x:xmp\n"
 	}
+	if exotic && r.Chance(1, 4) {
+		st.PadBeforeGT = r.Range(1, 40)
+	}
 	st.Unknown = r.Pick(0, 0, 1, 3, 8)
 	st.SplitDesc = r.Chance(1, 4)
 	st.SelfClose = r.Chance(1, 3)
@@ -392,10 +395,8 @@ func (rec *XMPRec) Serialise(r *core.Rng, st XMPStyle, forceForm int) []byte {
 	}
 	for _, grp := range groups {
 		var attrs, elems []string
-		nsUsed := map[string]bool{}
 		for _, pi := range grp {
 			p := rec.Props[pi]
-			nsUsed[p.NS] = true
 			elem := p.Elem
 			if p.Kind == "simple" {
 				if forceForm == 1 {
@@ -442,17 +443,15 @@ func (rec *XMPRec) Serialise(r *core.Rng, st XMPStyle, forceForm int) []byte {
 			}
 		}
 		sb.WriteString(st.Indent + st.Indent + "<rdf:Description rdf:about=" + q + q)
-		for ns := range nsURI {
-			if nsUsed[ns] || ns == "photoshop" || ns == "foo" || ns == "lr" || ns == "Iptc4xmpCore" || ns == "xmpRights" || ns == "tiff" || ns == "exif" || ns == "aux" || ns == "crs" {
-				_ = ns
-			}
-		}
 		// namespace declarations in a fixed order (deterministic output)
 		for _, ns := range []string{"tiff", "exif", "aux", "xmp", "xap", "xmpMM", "xapMM", "crs", "dc", "photoshop", "lr", "foo", "Iptc4xmpCore", "xmpRights"} {
 			sb.WriteString(st.WS + "xmlns:" + ns + "=" + q + nsURI[ns] + q)
 		}
 		for _, a := range attrs {
 			sb.WriteString(st.WS + a)
+		}
+		if st.PadBeforeGT > 0 { // white space between the last attribute and the end of the tag
+			sb.WriteString(strings.Repeat(" ", st.PadBeforeGT/2) + st.NL + strings.Repeat(" ", st.PadBeforeGT-st.PadBeforeGT/2))
 		}
 		if len(elems) == 0 && st.SelfClose {
 			sb.WriteString("/>" + st.NL)
